@@ -182,7 +182,11 @@ pub fn eval_filters(ctx: &mut Ctx, base: &str, chain: &[Filter]) {
         }
     }
     let want_n = contains.iter().filter(|c| **c).count();
-    if it.len() != want_n || empty != (want_n == 0) {
+    // (a size given twice may be iterated twice: the statement does not say, so count distinct sizes)
+    let mut distinct: Vec<&'static str> = it.iter().map(|s| cat::row_of(*s).name).collect();
+    distinct.sort();
+    distinct.dedup();
+    if distinct.len() != want_n || empty != (want_n == 0) {
         return ctx.violation("filter_iteration_count", &case(), format!("{} iterated, {} expected, is_empty {}", it.len(), want_n, empty));
     }
     let caps: Vec<usize> = it.iter().map(|s| cat::row_of(*s).data).collect();
@@ -287,8 +291,10 @@ pub fn eval_construction(ctx: &mut Ctx, a: &[&'static Row], b: &[&'static Row]) 
         n
     };
     let names = |v: &Vec<SymbolSize>| {
+        // (whether a size given twice is iterated once or twice is not fixed by the statement: compare as sets)
         let mut n: Vec<&'static str> = v.iter().map(|s| cat::row_of(*s).name).collect();
         n.sort();
+        n.dedup();
         n
     };
     let want_a = set_of(a);
@@ -299,8 +305,11 @@ pub fn eval_construction(ctx: &mut Ctx, a: &[&'static Row], b: &[&'static Row]) 
     sq.extend_from_slice(b);
     let want_sq = set_of(&sq);
     for (nm, v, want) in [("with_whitelist", &v1, &want_a), ("from_iter", &v2, &want_a), ("extend_on_empty", &v3, &want_a), ("from_array_or_size", &v4, &want_a), ("extend", &v5, &want_ab), ("filter_then_extend", &v6, &want_sq)] {
-        if &names(v) != want || v.len() != want.len() {
+        if &names(v) != want {
             return ctx.violation("list_construction_members", &case(), format!("{}: iterates {} sizes, expected the {} distinct members", nm, v.len(), want.len()));
+        }
+        if v.len() != want.len() {
+            ctx.count("construction.duplicates_iterated(not judged)");
         }
         let caps: Vec<usize> = v.iter().map(|s| cat::row_of(*s).data).collect();
         if caps.windows(2).any(|w| w[0] > w[1]) {
@@ -336,7 +345,9 @@ pub fn eval_construction(ctx: &mut Ctx, a: &[&'static Row], b: &[&'static Row]) 
             match r2 {
                 Err(p) => return ctx.violation("panic", &case(), p),
                 Ok((g, f)) => {
-                    if g != f {
+                    // compared by capacity: which of several listed symbols of equal capacity wins is list-order business
+                    let capof = |r: &Result<SymbolSize, datamatrix::data::DataEncodingError>| r.as_ref().map(|s| cat::row_of(*s).data).map_err(|e| format!("{:?}", e));
+                    if capof(&g) != capof(&f) {
                         return ctx.violation("grown_list_encodes_differently", &case(), format!("{} digits: list grown with extend() gives {:?}, the same sizes as a fresh list give {:?}", msg.len(), g, f));
                     }
                     if let Ok(sz) = g {
